@@ -48,7 +48,7 @@ def main():
             results["%s/%s" % (pid, name)] = {"applies": False, "error": ap.stdout[-400:]}
             sh("rm -rf %s" % clone)
             continue
-        entry = {"applies": True, "summary": meta.get("summary", ""), "checks": {}}
+        entry = {"applies": True, "summary": meta.get("summary", ""), "checks": {}, "note": meta.get("note", "")}
         env = dict(os.environ, GOFLAGS="-mod=mod", GOPROXY="off", GOSUMDB="off", GOTOOLCHAIN="local")
         b = sh("cd %s && go build ./..." % clone, env=env)
         entry["compiles"] = b.returncode == 0
@@ -77,7 +77,8 @@ def main():
             lines.append("| %s | (patch no longer applies) | - |" % k)
             continue
         cs = ", ".join("%s %s: %d" % (c, v.get("tier", "quick"), v["exit"]) for c, v in sorted(e["checks"].items()))
-        lines.append("| %s | %s | %s |" % (k, e.get("summary", "").replace("|", "/"), cs))
+        note = (" NOTE: " + e["note"]) if e.get("note") else ""
+        lines.append("| %s | %s | %s |" % (k, (e.get("summary", "") + note).replace("|", "/"), cs))
     open(os.path.join(SEEDED, "RESULTS.md"), "w").write("\n".join(lines) + "\n")
 
 
